@@ -127,7 +127,8 @@ def terminate(sc):
     threads, procs, situation = sc['threads'], sc['procs'], sc['situation']
     log = tempfile.mktemp(prefix='verif-exitlog-', dir='/var/tmp')
     os.environ['VERIF_EXIT_LOG'] = log
-    pool = bp.Pool(procs, threads=threads, on_process_exit=targets.on_exit_marker)
+    pool = bp.Pool(procs, threads=threads,
+                   on_process_exit=targets.slow_exit_marker if sc.get('slowexit') else targets.on_exit_marker)
     seen = set(w.pid for w in pool._pool)
     early = []
     if threads:
@@ -163,7 +164,8 @@ def terminate(sc):
     time.sleep(0.3)
     exits = 0
     try:
-        exits = len(set(l.split()[0] for l in open(log)))
+        # a callback counts when it ran to its end ('<pid> begin' lines of the slow marker do not)
+        exits = len(set(l.split()[0] for l in open(log) if len(l.split()) >= 2 and l.split()[1] != 'begin'))
         os.unlink(log)
     except OSError:
         pass
